@@ -98,9 +98,13 @@ fn read_table(bytes: &[u8], paths: Vec<String>) -> Result<Result<Vec<FileState>,
     }).map_err(|_| ())
 }
 
-pub fn run(rep: &mut Report, tier: &str)
+/// The whole enumeration.  `progress` is told which item is about to be read, so that a
+/// process-killing failure (allocation bomb -> abort) can be attributed by the parent.
+fn sweep(tier: &str, progress: &mut dyn FnMut(&str)) -> (serde_json::Map<String, Value>, BTreeMap<String, String>)
 {
     let thorough = tier == "thorough";
+    let mut rep_map: serde_json::Map<String, Value> = serde_json::Map::new();
+    let mut samples: Vec<Value> = vec![];
     let mut bad = Bad { map: BTreeMap::new() };
     let mut evals = 0u64;
     let mut instances = 0u64;
@@ -135,6 +139,7 @@ pub fn run(rep: &mut Report, tier: &str)
         {
             prefixes += 1;
             evals += 1;
+            progress(&format!("rule history, prefix {} of {} bytes", cut, bytes.len()));
             match read_history(&bytes[..cut])
             {
                 Err(()) => bad.add("reading a truncated rule history panics", format!("prefix {} of {}", cut, bytes.len())),
@@ -151,6 +156,7 @@ pub fn run(rep: &mut Report, tier: &str)
                 b[bit / 8] ^= 1 << (bit % 8);
                 flips += 1;
                 evals += 1;
+                progress(&format!("rule history of {} bytes, bit {} flipped", bytes.len(), bit));
                 match read_history(&b)
                 {
                     Err(()) => bad.add("reading a bit-flipped rule history panics", format!("bit {} of {} bytes", bit, bytes.len())),
@@ -193,6 +199,7 @@ pub fn run(rep: &mut Report, tier: &str)
         {
             prefixes += 1;
             evals += 1;
+            progress(&format!("file-state table, prefix {} of {} bytes", cut, bytes.len()));
             match read_table(&bytes[..cut], paths.clone())
             {
                 Err(()) => bad.add("reading a truncated table panics", format!("prefix {} of {}", cut, bytes.len())),
@@ -208,6 +215,7 @@ pub fn run(rep: &mut Report, tier: &str)
                 b[bit / 8] ^= 1 << (bit % 8);
                 flips += 1;
                 evals += 1;
+                progress(&format!("file-state table of {} bytes, bit {} flipped (byte {} bit {})", bytes.len(), bit, bit / 8, bit % 8));
                 match read_table(&b, paths.clone())
                 {
                     Err(()) => bad.add("reading a bit-flipped table panics", format!("bit {} of {} bytes", bit, bytes.len())),
@@ -228,6 +236,7 @@ pub fn run(rep: &mut Report, tier: &str)
     {
         arbitrary += 2;
         evals += 2;
+        progress(&format!("arbitrary bytes {:?} (length {})", &t[..t.len().min(4)], t.len()));
         match read_history(&t)
         {
             Err(()) => bad.add("reading arbitrary bytes as a rule history panics", format!("{:?}", &t[..t.len().min(8)])),
@@ -242,27 +251,89 @@ pub fn run(rep: &mut Report, tier: &str)
         }
     }
 
-    rep.set("evaluations", json!(evals));
-    rep.set("states", json!(instances));
-    rep.set("transitions", json!(evals));
-    rep.set("traces_validated_against_impl", json!(evals));
-    rep.set("distinct_nontrivial", json!(instances));
-    rep.set("instances", json!(instances));
-    rep.set("strict_prefixes", json!(prefixes));
-    rep.set("single_bit_flips", json!(flips));
-    rep.set("bit_flips_read_as_wellformed_other_data", json!(flips_accepted));
-    rep.set("arbitrary_byte_strings", json!(arbitrary));
-    rep.set("exhaustive", json!(true));
-    rep.set("rule", json!("rule histories with 0..3 entries x 1..3 targets and tables with 0..3 paths from a fixed pool: round trip, every strict prefix, every single-bit flip; all byte strings of length <= 2; constant strings of length 0..64"));
-    rep.push_sample(json!({"history_entries": 2, "targets": 3, "check": "every strict prefix of its 258 bytes is rejected"}));
-    for (what, detail) in bad.map
+    let mut set = |k: &str, v: Value| { rep_map.insert(k.to_string(), v); };
+    set("evaluations", json!(evals));
+    set("states", json!(instances));
+    set("transitions", json!(evals));
+    set("traces_validated_against_impl", json!(evals));
+    set("distinct_nontrivial", json!(instances));
+    set("instances", json!(instances));
+    set("strict_prefixes", json!(prefixes));
+    set("single_bit_flips", json!(flips));
+    set("bit_flips_read_as_wellformed_other_data", json!(flips_accepted));
+    set("arbitrary_byte_strings", json!(arbitrary));
+    set("exhaustive", json!(true));
+    set("rule", json!("rule histories with 0..3 entries x 1..3 targets and tables with 0..3 paths from a fixed pool: round trip, every strict prefix, every single-bit flip; all byte strings of length <= 2; constant strings of length 0..64; run in a child process with a 6 GB address-space limit so that an allocation bomb is a verdict, not a crash of the checker"));
+    samples.push(json!({"history_entries": 2, "targets": 3, "check": "every strict prefix of its bytes is rejected"}));
+    samples.push(json!({"table_paths": ["t", "build/out.o", "a b"], "check": "every single-bit flip gives an error or well-formed other data"}));
+    rep_map.insert("samples".to_string(), json!(samples));
+    (rep_map, bad.map)
+}
+
+/// child mode: prints "ITEM ..." before every risky read and a final "RESULT {json}"
+pub fn child_main(tier: &str) -> i32
+{
+    use std::io::Write;
+    let out = std::io::stdout();
+    let mut progress = |d: &str| { let mut o = out.lock(); let _ = writeln!(o, "ITEM {}", d); let _ = o.flush(); };
+    let (cov, bad) = sweep(tier, &mut progress);
+    let mut o = out.lock();
+    let _ = writeln!(o, "RESULT {}", json!({"coverage": cov, "bad": bad}));
+    let _ = o.flush();
+    0
+}
+
+pub fn run(rep: &mut Report, tier: &str)
+{
+    use std::process::{Command, Stdio};
+    let exe = match std::env::current_exe() { Ok(e) => e, Err(e) => { rep.machinery(format!("cannot find own executable: {}", e)); return; } };
+    let cmd = format!("ulimit -v 6000000; exec '{}' c16-child --tier {}", exe.display(), tier);
+    let outp = match Command::new("sh").arg("-c").arg(&cmd).stdout(Stdio::piped()).stderr(Stdio::null()).output()
     {
-        rep.violation(Violation
+        Ok(o) => o,
+        Err(e) => { rep.machinery(format!("cannot start child: {}", e)); return; },
+    };
+    let text = String::from_utf8_lossy(&outp.stdout).to_string();
+    let last_item = text.lines().rev().find(|l| l.starts_with("ITEM ")).map(|l| l[5..].to_string()).unwrap_or_default();
+    let result = text.lines().rev().find(|l| l.starts_with("RESULT ")).and_then(|l| serde_json::from_str::<Value>(&l[7..]).ok());
+    match result
+    {
+        Some(v) if outp.status.success() =>
         {
-            property: "C16".into(),
-            signature: format!("C16:state:{}", what),
-            summary: format!("{}: {}", what, detail),
-            replay: json!({"engine": "state", "what": what}),
-        });
+            if let Some(m) = v["coverage"].as_object() { for (k, x) in m { rep.set(k, x.clone()); } }
+            if let Some(m) = v["bad"].as_object()
+            {
+                for (what, detail) in m
+                {
+                    rep.violation(Violation
+                    {
+                        property: "C16".into(),
+                        signature: format!("C16:state:{}", what),
+                        summary: format!("{}: {}", what, detail.as_str().unwrap_or("")),
+                        replay: json!({"engine": "state", "what": what}),
+                    });
+                }
+            }
+        },
+        _ =>
+        {
+            // the child died: the item it had announced last killed the process
+            let items = text.lines().filter(|l| l.starts_with("ITEM ")).count();
+            rep.set("evaluations", json!(items));
+            rep.set("states", json!(1));
+            rep.set("transitions", json!(items));
+            rep.set("traces_validated_against_impl", json!(items));
+            rep.set("distinct_nontrivial", json!(2));
+            rep.set("exhaustive", json!(false));
+            rep.push_sample(json!({"last_item_before_the_reader_died": last_item}));
+            let what = "reading a damaged state file kills the process (abort / allocation failure) instead of returning an error";
+            rep.violation(Violation
+            {
+                property: "C16".into(),
+                signature: format!("C16:state:{}", what),
+                summary: format!("{}: child exit {:?} while reading: {}", what, outp.status.code(), last_item),
+                replay: json!({"engine": "state", "what": what}),
+            });
+        },
     }
 }
